@@ -2,7 +2,7 @@
 
 Closed system: the real dfu.cli_main() <-> the DfuSe device model of mc/ref/dfuse.py with a virtual clock.
 (a) every firmware length 0..flash size (16-page variant quick, all four GD32 variants thorough) under three uniform
-schedules; (b) stateless choice/deviation exploration of the device's timing freedom (starts in dfuERROR or not; per
+schedules, plus constant / partly blank image contents and a very slow device around the page boundaries; (b) stateless choice/deviation exploration of the device's timing freedom (starts in dfuERROR or not; per
 DNLOAD 0 / 1 / 2 busy answers; per answer a poll delay of 0 / 5 / 256 / 65536 ms): every schedule with <= 2 deviations
 from the default for 1-4 pages, and ALL schedules for a one-page image.
 Oracle = monitor inside the device (every address page aligned and inside flash, a page is written only after it was
@@ -14,7 +14,8 @@ from mc.ref import dfuse
 
 PROP = 'C18'
 VARIANTS = [16, 32, 64, 128]
-UNIFORM = {'default': (1, 5), 'never-busy': (0, 0), 'busy-twice-long': (2, 0x010000)}
+UNIFORM = {'default': (1, 5), 'never-busy': (0, 0), 'busy-twice-long': (2, 0x010000), 'busy-300': (300, 0)}     # busy-300: a very slow device (used on a sub-set of lengths)
+CONTENTS = ['zeros', 'ff', 'zpage', 'ffpage', 'lastzero']                                                     # image contents besides the default ramp
 
 
 def judge(ctx, r, pages, fw, driver, case, prop=PROP):
@@ -53,9 +54,9 @@ def observe(ctx, r):
 
 def sched_case(ctx, case):
     """one schedule: case = dict(pages, length, prefix | uniform)"""
-    fw = dfuse.firmware(case['length'])
+    fw = dfuse.firmware(case['length'], case.get('content', 'ramp'))
     uni = UNIFORM[case['uniform']] if case.get('uniform') else None
-    r = dfuse.run_host(case['pages'], fw, prefix=case.get('prefix', ()), uniform=uni)
+    r = dfuse.run_host(case['pages'], fw, prefix=case.get('prefix', ()), uniform=uni, via=case.get('via', 'file'))
     observe(ctx, r)
     judge(ctx, r, case['pages'], fw, 'sched_case', case)
     return r
@@ -64,7 +65,13 @@ def sched_case(ctx, case):
 def length_task(ctx, task):
     for n in task['lengths']:
         for u in task['uniforms']:
-            sched_case(ctx, dict(pages=task['pages'], length=n, uniform=u))
+            for content in task.get('contents', ['ramp']):
+                case = dict(pages=task['pages'], length=n, uniform=u)
+                if content != 'ramp':
+                    case['content'] = content
+                if task.get('via'):
+                    case['via'] = task['via']
+                sched_case(ctx, case)
     ctx.count('lengths', len(task['lengths']))
     ctx.sample(dict(sweep='length', pages=task['pages'], length=task['lengths'][0], schedules=task['uniforms']), cap=1)
 
@@ -124,13 +131,27 @@ def run(tier, seed, t0):
     variants = [16] if tier == 'quick' else VARIANTS
     for pages in variants:
         for ch in kernel.chunks(range(0, pages * dfuse.PAGE + 1), 64 if pages <= 32 else 24):
-            tasks.append(dict(pages=pages, lengths=list(ch), uniforms=list(UNIFORM)))
+            tasks.append(dict(pages=pages, lengths=list(ch), uniforms=[u for u in UNIFORM if u != 'busy-300']))
+    # image contents (constant 0x00 / 0xFF images, blank pages inside the image, a trailing zero byte) and a very slow device, at the lengths around every page boundary
+    for pages in variants:
+        ls = sorted({n for p in range(0, pages + 1) for n in (p * 1024 - 1, p * 1024, p * 1024 + 1, p * 1024 + 512) if 0 <= n <= pages * 1024})
+        if tier == 'quick':
+            ls = [n for n in ls if n <= 5 * 1024 + 1 or n >= (pages - 1) * 1024 - 1]
+        for ch in kernel.chunks(ls, 8):
+            tasks.append(dict(pages=pages, lengths=list(ch), uniforms=['default', 'never-busy'], contents=CONTENTS))
+        for ch in kernel.chunks([n for n in ls if n <= 3 * 1024 + 1 or n == pages * 1024], 2):
+            tasks.append(dict(pages=pages, lengths=list(ch), uniforms=['busy-300']))
     if tier == 'quick':
         # the other three variants at the lengths around every page boundary
         for pages in VARIANTS[1:]:
             ls = sorted({n for p in range(0, pages + 1) for n in (p * 1024 - 1, p * 1024, p * 1024 + 1) if 0 <= n <= pages * 1024})
             for ch in kernel.chunks(ls, 12):
                 tasks.append(dict(pages=pages, lengths=list(ch), uniforms=['default']))
+            for ch in kernel.chunks([n for n in ls if n <= 2049 or n >= (pages - 1) * 1024], 6):
+                tasks.append(dict(pages=pages, lengths=list(ch), uniforms=['default'], contents=CONTENTS))
+    # the firmware handed over through a named pipe
+    for pages in VARIANTS:
+        tasks.append(dict(pages=pages, lengths=[1, 1024, 1025, pages * 1024 - 1, pages * 1024], uniforms=['default'], via='fifo'))
     m = kernel.explore(length_task, tasks)
     stasks = []
     # all schedules of a one-page image (unbounded deviations), split on the first deviation
@@ -157,7 +178,8 @@ def run(tier, seed, t0):
                rule='states = distinct (device event, device state, poll delay) observations of the monitor; transitions = control transfers + sleeps of the real host; one trace = one '
                     'complete execution of dfu.cli_main(); non-trivial = schedules with at least one deviation from the default answer',
                exhaustive=True, runs=n['runs'], lengths=n['lengths'], schedules=n['schedules'], replay_determinism_checks=n['replay_checks'],
-               bound='lengths 0..flash size of the %s under 3 uniform schedules%s; ALL schedules (unbounded deviations) of a one-page image; every schedule with <= %d deviations for '
+               bound='lengths 0..flash size of the %s under 3 uniform schedules%s; 5 further image contents (all 0x00, all 0xFF, blank pages inside the image, trailing zero) and a device that is busy 300 polls per '
+                     'operation at the lengths around page boundaries; ALL schedules (unbounded deviations) of a one-page image; every schedule with <= %d deviations for '
                      '2-%d pages; <= 1 deviation on the other variants' % ('16-page variant' if tier == 'quick' else 'four GD32 variants',
                                                                           ' (other variants: lengths around every page boundary)' if tier == 'quick' else '', b, 4 if tier == 'quick' else 6))
     return kernel.finish(PROP, tier, seed, t0, m, cov, [
